@@ -329,6 +329,12 @@ impl Serialize for SupplyResponse {}
 pub trait DeserializeOwned {}
 pub trait CustomMsg {}
 pub trait CustomQuery {}
+// cosmwasm_std::from_json: decoding is a fixed function of the bytes (which function: serde_json, ASSUMED)
+pub uninterp spec fn spec_from_json<T>(b: Seq<u8>) -> StdResult<T>;
+#[verifier::external_body]
+pub fn from_json<T: DeserializeOwned>(value: Vec<u8>) -> (r: StdResult<T>)
+    ensures r == spec_from_json::<T>(value@)
+{ unimplemented!() }
 pub uninterp spec fn spec_json<T>(t: T) -> Binary;
 pub uninterp spec fn spec_json_ok<T>(t: T) -> bool;
 #[verifier::external_body]
